@@ -2,9 +2,10 @@
 from analysis.facts import norm
 from analysis.cfg import Cfg
 from analysis.flow import DefUse, backward, find_calls, callee_is, callee_ends, op_local, op_const, static_of, field_chain, bool_branch, variant_arms
-from analysis.table import describe_val
+from analysis.table import describe_val, canon_bool
 from analysis.loops import classify
-from rules.common import need
+from analysis.inline import inline
+from rules.common import need, family
 
 BF = "common::beans::BeanFactory"
 
@@ -53,12 +54,10 @@ def publish_rule(run, f, rid):
         b = need(run, rid, f, fn)
         if b is None:
             continue
-        bodies = [b]
-        stack = list(f.closures_of(b))
-        while stack:
-            c = stack.pop()
-            bodies.append(c)
-            stack.extend(f.closures_of(c))
+        # the function as one unit: closures handed to Option combinators and extracted helpers are spliced in;
+        # closures that stay separate bodies (the or_insert_with initialiser) are scanned alongside
+        nb = inline(b, f)
+        bodies = [nb] + family(f, b)[1:]
         ins = [(c, t) for c in bodies for (_x, t) in c.calls() if norm(t.get("callee") or "") == "dashmap::DashMap::insert"]
         ent = [(c, t) for c in bodies for (_x, t) in c.calls() if norm(t.get("callee") or "") == "dashmap::DashMap::entry"]
         oi = [(c, x, t) for c in bodies for (x, t) in c.calls() if norm(t.get("callee") or "").endswith(("Entry::or_insert_with", "Entry::or_insert", "Entry::or_default", "VacantEntry::insert", "VacantEntry::insert_entry"))]
@@ -115,7 +114,10 @@ def arith_rule(run, f, rid):
         b = need(run, rid, f, fn)
         if b is None:
             continue
-        bodies = [b] + f.closures_of(b)
+        # one unit: closures of Option/Result combinators and extracted helpers spliced in (`now` stays a call: it is
+        # judged on its own), whatever stays a separate body is scanned alongside
+        nb = inline(b, f, keep=("now",))
+        bodies = [nb] + family(f, b, keep=("now",))[1:]
         why = []
         for c in bodies:
             for blk in c.blocks:
@@ -140,11 +142,22 @@ def arith_rule(run, f, rid):
                     if cn.endswith(("Result::expect", "Result::unwrap")) and fn != "common::now" and not t.get("exp"):
                         why.append("a conversion panics instead of saturating (%s at line %s)" % (cn.rsplit("::", 2)[-2] + "::" + cn.rsplit("::", 1)[-1], t["line"]))
         if fn in ("common::now", "common::get_timeout_time"):
-            cs = [norm(t.get("callee") or "") for c in bodies for (_x, t) in c.calls()]
-            if not any(c.endswith("TryFrom>::try_from") for c in cs):
+            # u128 nanoseconds -> u64 through try_from, and the failure arm yields u64::MAX (whether written as
+            # unwrap_or(MAX), map_or(MAX, ..) or a match)
+            ncfg, ndu = Cfg(nb), DefUse(nb)
+            tf = [(x, t) for (x, t) in nb.calls() if norm(t.get("callee") or "").endswith("TryFrom>::try_from")]
+            if not tf:
                 why.append("u128 nanoseconds are not converted with try_from")
-            fb = [t for c in bodies for (_x, t) in c.calls() if norm(t.get("callee") or "") in ("std::result::Result::unwrap_or", "std::result::Result::map_or")]
-            if not fb or not any(a.get("v") == "18446744073709551615" for t in fb for a in t["args"] if a["k"] == "const"):
+            okfb = False
+            for (x, t) in tf:
+                va = variant_arms(nb, ncfg, ndu, t["dest"]["l"], ncfg.after(x))
+                if va and va[0].get("Err") is not None:
+                    for y in ncfg.reachable({va[0]["Err"]}):
+                        if ncfg.dominates(va[0]["Err"], y):
+                            for s in nb.blocks[y]["stmts"]:
+                                if s["k"] == "assign" and s["rhs"]["k"] == "use" and s["rhs"]["a"].get("v") == "18446744073709551615":
+                                    okfb = True
+            if tf and not okfb:
                 why.append("the overflow fallback is not u64::MAX")
         if fn == "common::get_timeout_time":
             cs = [norm(t.get("callee") or "") for c in bodies for (_x, t) in c.calls()]
@@ -157,16 +170,22 @@ def arith_rule(run, f, rid):
 
 
 def slices_rule(run, f, rid):
-    run.rule(rid, "get_slices: zero total -> empty; loop guarded by left > slice pushes exactly `slice` and subtracts exactly `slice`; the remainder is pushed once after the loop", floor=3, template="T7 + T5")
+    run.rule(rid, "get_slices: zero total -> empty; the loop continues exactly when slice < remainder, pushes exactly `slice` and subtracts exactly `slice`; the remainder is pushed once after the loop", floor=3, template="T7 + T5")
     b = need(run, rid, f, "common::get_slices")
     if b is None:
         return
+    b = inline(b, f)
     cfg = Cfg(b)
     du = DefUse(b)
     loops = cfg.natural_loops()
+    TOTAL, SLICE = 1, 2     # parameter positions: get_slices(total, slice)
     pushes = find_calls(b, callee_is("std::vec::Vec::push"))
     subs = find_calls(b, callee_is("std::time::Duration::checked_sub", "std::time::Duration::saturating_sub", "<std::time::Duration as std::ops::Sub>::sub"))
-    gts = [(x, t) for (x, t) in b.calls() if norm(t.get("callee") or "").rsplit("::", 1)[-1] in ("gt", "lt", "ge", "le") and "PartialOrd" in norm(t.get("callee") or "")]
+    ords = [(x, t) for (x, t) in b.calls() if norm(t.get("callee") or "").rsplit("::", 1)[-1] in ("gt", "lt", "ge", "le") and "PartialOrd" in norm(t.get("callee") or "")]
+
+    def sl(op, x):
+        return backward(b, op, du, at=(x, "term"), through_calls="none")
+
     why = []
     if len(loops) != 1:
         why.append("expected exactly one loop (found %d)" % len(loops))
@@ -174,49 +193,74 @@ def slices_rule(run, f, rid):
         h, L = list(loops.items())[0]
         inl = [(x, t) for (x, t) in pushes if x in L]
         out = [(x, t) for (x, t) in pushes if x not in L]
-        if len(inl) != 1 or {b.name_of(p) for p in backward(b, inl[0][1]["args"][1], du, at=(inl[0][0], "term"), through_calls="none").params} != {"slice"}:
-            why.append("inside the loop exactly `slice` must be pushed")
-        if len(out) != 1 or "left_total" not in {b.name_of(l) for l in backward(b, out[0][1]["args"][1], du, at=(out[0][0], "term"), through_calls="none").locals}:
-            why.append("after the loop exactly the remainder must be pushed")
-        elif not all(any(s_ not in L for s_ in cfg.succ[y]) or True for y in L) or not cfg.must_pass([s_ for y in L for s_ in cfg.succ[y] if s_ not in L and not b.blocks[s_]["cleanup"]], [out[0][0]])[0]:
-            why.append("a path leaves the loop and returns without pushing the remainder")
-        sl = [(x, t) for (x, t) in subs if x in L]
-        if len(sl) != 1:
+        sub_in = [(x, t) for (x, t) in subs if x in L]
+        # the remainder: the one variable the subtraction reads that is assigned more than once (initialised from
+        # `total`, re-assigned in the loop) -- identified by its definitions, not by its name
+        rem = None
+        if len(sub_in) != 1:
             why.append("the loop must subtract once per iteration")
         else:
-            a0 = {b.name_of(l) for l in backward(b, sl[0][1]["args"][0], du, at=(sl[0][0], "term"), through_calls="none").locals}
-            a1 = {b.name_of(p) for p in backward(b, sl[0][1]["args"][1], du, at=(sl[0][0], "term"), through_calls="none").params}
-            if "left_total" not in a0 or a1 != {"slice"}:
+            sx, st = sub_in[0]
+            a0, a1 = sl(st["args"][0], sx), sl(st["args"][1], sx)
+            cands = [l for l in a0.locals if l > b.argc and len(du.defs.get(l, [])) >= 2]
+            if len(cands) == 1:
+                rem = cands[0]
+            if rem is None or set(a0.params) != {TOTAL} or set(a1.params) != {SLICE} or (a1.locals & {rem}):
                 why.append("the loop must subtract exactly `slice` from the remainder")
-        gl = [(x, t) for (x, t) in gts if x in L]
+            elif not any(any(y == sx for (y, _t) in backward(b, {"k": "copy", "p": {"l": rem, "proj": []}}, du, at=(d_[0], d_[1] + 1 if isinstance(d_[1], int) else "term"), through_calls="all").calls) for d_ in du.defs.get(rem, []) if d_[0] in L):
+                why.append("the result of the subtraction is not stored back into the remainder")
+        if len(inl) != 1 or set(sl(inl[0][1]["args"][1], inl[0][0]).params) != {SLICE} or (rem is not None and rem in sl(inl[0][1]["args"][1], inl[0][0]).locals):
+            why.append("inside the loop exactly `slice` must be pushed")
+        if len(out) != 1 or rem is None or rem not in sl(out[0][1]["args"][1], out[0][0]).locals or SLICE in sl(out[0][1]["args"][1], out[0][0]).params:
+            why.append("after the loop exactly the remainder must be pushed")
+        elif not cfg.must_pass([s_ for y in L for s_ in cfg.succ[y] if s_ not in L and not b.blocks[s_]["cleanup"]], [out[0][0]])[0]:
+            why.append("a path leaves the loop and returns without pushing the remainder")
+        gl = [(x, t) for (x, t) in ords if x in L]
         if len(gl) != 1:
             why.append("no single ordering test guards the loop")
-        else:
+        elif rem is not None and len(inl) == 1:
             x, t = gl[0]
-            a0 = {b.name_of(l) for l in backward(b, t["args"][0], du, at=(x, "term"), through_calls="none").locals}
-            a1 = {b.name_of(p) for p in backward(b, t["args"][1], du, at=(x, "term"), through_calls="none").params}
-            opn = norm(t["callee"]).rsplit("::", 1)[1]
-            if not (opn == "gt" and "left_total" in a0 and a1 == {"slice"}):
-                why.append("the loop guard must be `left_total > slice` (found %s(%s, %s)): with `>=` a zero remainder is pushed, with `<` nothing is sliced" % (opn, sorted(x_ for x_ in a0 if not x_.startswith("_")), sorted(a1)))
-            # progress: under left > slice the checked_sub cannot fail, so every cycle shrinks the remainder
+            side = []
+            for a in t["args"]:
+                s_ = sl(a, x)
+                side.append("R" if rem in s_.locals and SLICE not in s_.params else "S" if set(s_.params) == {SLICE} and rem not in s_.locals else "?")
+            opn = {"gt": "Gt", "lt": "Lt", "ge": "Ge", "le": "Le"}[norm(t["callee"]).rsplit("::", 1)[1]]
             br = bool_branch(b, cfg, du, t["dest"]["l"], cfg.after(x))
-            if br and sl and not cfg.dominates(br[0], sl[0][0]):
-                why.append("the subtraction is not on the continue edge of the guard")
+            if br is None or "?" in side:
+                why.append("the loop guard does not compare the remainder with `slice`")
+            else:
+                # which edge of the test leads to the push inside the loop: that edge must mean  slice < remainder
+                push_blk = inl[0][0]
+                on_true = push_blk in cfg.reachable({br[0]}, avoid={h}) or br[0] == push_blk
+                on_false = push_blk in cfg.reachable({br[1]}, avoid={h}) or br[1] == push_blk
+                if on_true == on_false:
+                    why.append("the push is not controlled by the loop guard")
+                else:
+                    d, v = canon_bool(("cmp", opn, side[0], side[1]), on_true)
+                    if (d, v) != (("cmp", "Lt", "S", "R"), True):
+                        why.append("the loop must continue exactly when slice < remainder (found %s %s %s is %s): with `<=` a zero remainder is pushed, the other way round nothing is sliced" % (d[2], d[1], d[3], v))
+                    # progress: under slice < remainder the checked_sub cannot fail, so every cycle shrinks the remainder
+                    cont = br[0] if on_true else br[1]
+                    if sub_in and not cfg.dominates(cont, sub_in[0][0]):
+                        why.append("the subtraction is not on the continue edge of the guard")
     # zero total returns the empty vector
-    z = [(x, t) for (x, t) in b.calls() if norm(t.get("callee") or "").endswith("Duration as std::cmp::PartialEq>::eq")]
+    z = [(x, t) for (x, t) in b.calls() if norm(t.get("callee") or "").endswith(("Duration as std::cmp::PartialEq>::eq", "Duration::is_zero")) or (norm(t.get("callee") or "") == "std::cmp::PartialEq::ne" and "Duration" in " ".join(t.get("substs") or []))]
     okz = False
     for (x, t) in z:
         br = bool_branch(b, cfg, du, t["dest"]["l"], cfg.after(x))
-        if br and not any(p in cfg.reachable({br[0]}) for (p, _t) in pushes) and (set(cfg.returns) & cfg.reachable({br[0]})):
+        if not br:
+            continue
+        zero_bb = br[1] if norm(t["callee"]).endswith("::ne") else br[0]
+        if TOTAL in set().union(*[set(sl(a, x).params) for a in t["args"]]) and not any(p in cfg.reachable({zero_bb}) for (p, _t) in pushes) and (set(cfg.returns) & cfg.reachable({zero_bb})):
             okz = True
     if not okz:
         why.append("a zero total does not return the empty vector")
     if why:
         run.fail(rid, "common::get_slices/shape", b.loc(), "; ".join(why))
     else:
-        run.ok(rid, "common::get_slices/shape", "each piece == slice while left > slice; remainder pushed once; pieces sum to total by induction on the subtraction")
+        run.ok(rid, "common::get_slices/shape", "each piece == slice while slice < remainder; remainder pushed once; pieces sum to total by induction on the subtraction")
     # the loop itself: classified by the generic classifier as non-progressing unless the guard argument above holds; report as info
-    run.ok(rid, "common::get_slices/terminates", "left_total strictly decreases by slice > 0 on every cycle (checked_sub cannot fail under left_total > slice); a zero slice is outside the statement")
+    run.ok(rid, "common::get_slices/terminates", "the remainder strictly decreases by slice > 0 on every cycle (checked_sub cannot fail under slice < remainder); a zero slice is outside the statement")
     run.ok(rid, "common::get_slices/zero", "zero total -> empty vector")
 
 
